@@ -112,12 +112,18 @@ class _JoblibProxy(types.ModuleType):
 
 
 JOBLIB = _JoblibProxy()
-FUNCTOOLS = types.SimpleNamespace(
-    lru_cache=lambda *a, **k: (a[0] if a and callable(a[0]) else (lambda f: f)),
-    wraps=functools.wraps,
-    partial=functools.partial,
-    reduce=functools.reduce,
-)
+class _FunctoolsProxy(types.ModuleType):
+    """the real functools with lru_cache replaced by the identity decorator"""
+
+    def __init__(self):
+        super().__init__("functools")
+        self.lru_cache = lambda *a, **k: (a[0] if a and callable(a[0]) else (lambda f: f))
+
+    def __getattr__(self, k):
+        return getattr(functools, k)
+
+
+FUNCTOOLS = _FunctoolsProxy()
 WARNINGS = types.SimpleNamespace(
     warn=lambda *a, **k: None,
     simplefilter=lambda *a, **k: None,
